@@ -29,7 +29,7 @@ ASSUMPTIONS = ['faults are injected at the open() boundary of the handlelimiter 
                'gzip and the file system are trusted']
 MIN_NONTRIVIAL = {'quick': 400, 'thorough': 20000}
 REQUIRED_MONITORS = ['inj:open_attempts', 'inj:faults_fired', 'hist:writes', 'oracle:files_compared', 'inj:emfile_fired',
-                     'inj:transient_fired', 'inj:permanent_fired', 'reopen_append', 'rlimit:real_emfile_seen', 'split:bams_compared', 'inj:errno:emfile:ENFILE', 'inj:errno:transient:EIO', 'inj:errno:transient:None', 'hist:stale_files_present', 'hist:closed_in_between_and_used_again', 'paths:bare_file_names']
+                     'inj:transient_fired', 'inj:permanent_fired', 'reopen_append', 'rlimit:real_emfile_seen', 'split:bams_compared', 'inj:errno:emfile:ENFILE', 'inj:errno:transient:EIO', 'inj:errno:transient:None', 'hist:stale_files_present', 'hist:closed_in_between_and_used_again', 'paths:bare_file_names', 'hist:records_of_several_kb']
 EXHAUSTIVE = {'quick': False, 'thorough': True}
 SHARD_TIMEOUT = {'quick': 600, 'thorough': 7200}
 
@@ -263,6 +263,12 @@ def run_case(case):
             files = [f'c{j}.out' for j in range(nfiles)]
             nw = r.randint(nfiles, 6 * nfiles + 10)
             seq = [(r.choice(files) if r.random() < 0.8 else files[k % nfiles], f'@r{k}\nACGT{r.randint(0, 9999)}\n+\nIIII\n') for k in range(nw)]
+            if case['i'] % 2 == 0:
+                # long reads between the short ones: records of 4 - 20 kb
+                for k in r.sample(range(nw), max(1, nw // 15)):
+                    n_ = r.choice([4100, 8192, 10000, 20000])
+                    seq[k] = (seq[k][0], f'@long{k}\n' + 'ACGT' * (n_ // 4) + '\n+\n' + 'I' * n_ + '\n')
+                acc.count('hist:records_of_several_kb')
             settings = {'maxHandles': r.choice([1, 2, 4, 8, 16, 64]), 'pruneEvery': r.choice([1, 2, 5, 10, 50]), 'method': r.choice([1, 1, 0])}
             plans = []
             for _ in range(12):
